@@ -358,6 +358,23 @@ func render(rv reflect.Value) *V {
 	panic("render: value outside the universe: " + rv.Type().String())
 }
 
+// keys in the order of their numbers on the Coq side (symbol index, or the integer for int keys)
+func keysBySym(m map[string]*V, intKeys bool) []string {
+	ks := make([]string, 0, len(m))
+	for k := range m {
+		ks = append(ks, k)
+	}
+	num := func(k string) uint64 {
+		if intKeys {
+			n, _ := strconv.Atoi(k)
+			return uint64(n)
+		}
+		return sym(k)
+	}
+	sort.Slice(ks, func(i, j int) bool { return num(ks[i]) < num(ks[j]) })
+	return ks
+}
+
 func sortedKeys(m map[string]*V) []string {
 	ks := make([]string, 0, len(m))
 	for k := range m {
@@ -423,8 +440,9 @@ func (v *V) coq() string {
 	case "str":
 		return "(VStr " + lib.CoqStr(v.S) + ")"
 	case "struct":
+		// the model keeps association lists sorted by key number (insertion assumes it)
 		var fs []string
-		for _, k := range sortedKeys(v.F) {
+		for _, k := range keysBySym(v.F, false) {
 			fs = append(fs, lib.CoqPair(lib.CoqN(sym(k)), v.F[k].coq()))
 		}
 		return "(VStruct " + lib.CoqN(uint64(structID(v.T))) + " " + lib.CoqList(fs) + ")"
@@ -439,7 +457,7 @@ func (v *V) coq() string {
 			return "(VMap " + ks + " " + coqTy(v.T) + " None)"
 		}
 		var es []string
-		for _, k := range sortedKeys(v.F) {
+		for _, k := range keysBySym(v.F, v.IK) {
 			var kn uint64
 			if v.IK {
 				n, _ := strconv.Atoi(k)
